@@ -45,6 +45,19 @@ def norm_int(v, w, signed):
     return v
 
 
+_BVV = {}
+
+
+def BVV(c, w):
+    k = (c, w)
+    r = _BVV.get(k)
+    if r is None:
+        r = z3.BitVecVal(c, w)
+        if len(_BVV) < 200000:
+            _BVV[k] = r
+    return r
+
+
 def to_bv(v, w):
     if is_sym(v):
         if z3.is_bool(v):
@@ -54,7 +67,7 @@ def to_bv(v, w):
         return v
     if isinstance(v, bool):
         v = int(v)
-    return z3.BitVecVal(v, w)
+    return BVV(v, w)
 
 
 def to_bool(v):
@@ -520,8 +533,13 @@ class Interp:
         raise Unsupported('cast kind ' + kind)
 
     # ------------------------------------------------------------------ rvalues
+    _SEGS = {}
+
     def make_adt(self, path, vals, names):
-        segs = path_segments(path)
+        segs = self._SEGS.get(path)
+        if segs is None:
+            segs = path_segments(path)
+            self._SEGS[path] = segs
         if not segs:
             raise Unsupported('adt path ' + path)
         enums = self.src.enums
@@ -730,7 +748,12 @@ class Interp:
                         bb = term[4]
                         continue
                     if k == 'return':
-                        return cells[0].v if cells[0].v is not UNINIT else UNIT
+                        rv = cells[0].v if cells[0].v is not UNINIT else UNIT
+                        if self.watch:
+                            cb = self.watch.get(body.name)
+                            if cb is not None:
+                                cb(args, rv)
+                        return rv
                     if k == 'drop':
                         v = self.read_place(cells, term[1])
                         if v is not UNINIT and v is not None:
@@ -800,30 +823,52 @@ class Interp:
         else:
             cell.v = val
 
+    _SWITCH_CACHE = {}
+
     def _sym_switch(self, v, term):
         if self.x is None:
             raise Unsupported('symbolic switchInt without exploration context')
-        ty = term[4]
-        conds = []
-        if z3.is_bool(v):
-            # bool discriminant: 0 -> false
-            tg = dict(term[2])
-            if 0 in tg:
-                conds = [z3.Not(v), v]
-                dests = [tg[0], tg.get(1, term[3])]
+        key = (v.get_id(), id(term))
+        ent = self._SWITCH_CACHE.get(key)
+        if ent is None or ent[0] is not term:
+            if z3.is_bool(v):
+                tg = dict(term[2])
+                if 0 in tg:
+                    conds = [z3.Not(v), v]
+                    dests = [tg[0], tg.get(1, term[3])]
+                else:
+                    conds = [v, z3.Not(v)]
+                    dests = [tg.get(1, term[3]), term[3]]
+                vals = None
             else:
-                conds = [v, z3.Not(v)]
-                dests = [tg.get(1, term[3]), term[3]]
-        else:
-            w = v.size()
-            dests = []
-            for (c, t) in term[2]:
-                conds.append(v == z3.BitVecVal(c, w))
-                dests.append(t)
-            if term[3] is not None:
-                conds.append(z3.And([v != z3.BitVecVal(c, w) for (c, _) in term[2]]) if term[2] else z3.BoolVal(True))
-                dests.append(term[3])
-        i = self.x.choose(conds)
+                w = v.size()
+                conds = []
+                dests = []
+                vals = []
+                for (c, t) in term[2]:
+                    conds.append(v == BVV(c & ((1 << w) - 1), w))
+                    dests.append(t)
+                    vals.append(c & ((1 << w) - 1))
+                if term[3] is not None:
+                    conds.append(z3.And([v != BVV(c & ((1 << w) - 1), w) for (c, _) in term[2]]) if term[2] else z3.BoolVal(True))
+                    dests.append(term[3])
+            ent = (term, v, conds, dests, vals)
+            if len(self._SWITCH_CACHE) > 50000:
+                self._SWITCH_CACHE.clear()
+            self._SWITCH_CACHE[key] = ent
+        _, _, conds, dests, vals = ent
+        hint = None
+        if vals is not None and self.x.pos >= len(self.x.prefix):
+            try:
+                cv = self.x.get_model().eval(v, model_completion=True).as_long()
+                hint = vals.index(cv) if cv in vals else (len(conds) - 1 if len(conds) > len(vals) else None)
+            except Exception:
+                hint = None
+        i = self.x.choose(conds, hint)
+        if vals is not None and i < len(vals):
+            src = self.x.char_src.get(v.get_id())
+            if src is not None:
+                self.x.learn(src[1], vals[i] & 0xFF)
         d = dests[i]
         if d is None:
             raise ModelError('switch to missing target')
